@@ -493,6 +493,11 @@ def renderer_bounds(run, m, F, E):
         n += 1
 
         class RH(c11.WriterHooks):
+            # a loop of the routine itself (a walk back over the text, say) is interpreted exactly for two rounds before it is
+            # abstracted, so that what it reads first has a real path
+            unroll = 2
+            widen_on_entry = False
+
             def on_access(self, I, st, inst, kind, p, nbytes):
                 if kind == 'load' and isinstance(p, PtrV) and p.obj == 'TEXT':
                     st.ev('text-load', inst, p.off, nbytes)
@@ -556,6 +561,49 @@ def renderer_bounds(run, m, F, E):
         probs = sorted(set(probs), key=len)
         run.ob('R10.7', short(f.dem), False if probs else (None if und else True), probs[0] if probs else (und[0] if und else
                'pad counts <= width, emitted runs and reads inside [text, text + size) on %d paths' % npaths), loc=fn_loc(f))
+    # the floating-point renderer pads by itself: the same bound on its counts (snprintf's report a free length)
+    from . import c13
+    f = None
+    for name in F.lib:
+        if m.func(name).dem.startswith('ST::format_type(ST::format_spec const&, ST::format_writer&, double)'):
+            f = m.func(name)
+    if f is not None:
+        n += 1
+        I = Interp(m, F, E, c13.FloatHooks(m))
+        st = State()
+        fl = c11.spec_scene(I, st, m)
+        w = I.fresh_ptr(st, 'writer')
+        from ..state import TopV
+        probs, und, npaths = [], [], 0
+        try:
+            outs = I.run(I.start(f, [PtrV('SPEC'), w, TopV('value')], st)) if fl is not None else []
+        except Exception as e:
+            outs = []
+            und.append('not interpreted: %s' % (str(e)[:80],))
+        for o in outs:
+            if o.kind != 'ret':
+                continue
+            npaths += 1
+            s2 = o.st
+            width = I.as_s(s2, fl['minimum_length'])
+            for e in s2.events:
+                if e[0] == 'emit-char' and isinstance(e[3], IntV):
+                    cnt = I.as_u(s2, e[3])
+                    if cnt is None or s2.is_eq0(cnt) is True or (not cnt.t and cnt.c <= 4):
+                        continue
+                    d = width - cnt
+                    if s2.is_ge0(d) is not True:
+                        env = s2.find_model([d, cnt], lambda v: v[0] < 0 and v[1] >= 1)
+                        if env is not None:
+                            probs.append('append_char is handed %r pad unit(s) for a field of width %r (line %d): the count is not bounded by the width '
+                                         'the format string asked for; witness %s' % (cnt, width, e[1].line, own.fmt_env(env)))
+                        elif not own_abs(cnt) and not own_abs(width):
+                            und.append('pad count %r not decided to be bounded by the width' % (cnt,))
+        if npaths == 0 and not und:
+            und.append('no path explored')
+        probs = sorted(set(probs), key=len)
+        run.ob('R10.7', short(f.dem), False if probs else (None if und else True), probs[0] if probs else (und[0] if und else
+               'pad counts <= width on %d paths' % npaths), loc=fn_loc(f))
     return n
 
 
